@@ -654,6 +654,8 @@ Inductive op :=
 | OConclude (k : N) (approve : bool)   (* the k-th newest proposal that is still proposed *)
 | OWithdraw (k : N)                    (* the k-th newest proposal that is proposed or paused *)
 | OIbtp (src dst : N)
+| ORoleVote (r k : N) (approve : bool)  (* the account of role r, while its live role record does not say "available governance
+                                            admin", casts a ballot on the k-th newest open proposal: refused *)
 | ORestart.
 
 Definition ev_of (n : N) : string :=
@@ -673,6 +675,7 @@ Definition prog_of (f : cfg) (o : op) : prog :=
   | ORoleOp ev r => role_op (ev_of ev) r
   | OConclude k a => RdProps (fun ps => match nth_open false k ps with Some pid => conclude f pid a false | None => Fail end)
   | OWithdraw k => RdProps (fun ps => match nth_open true k ps with Some pid => conclude f pid false true | None => Fail end)
+  | ORoleVote _ _ _ => Fail
   | OIbtp _ _ | ORestart => Ret
   end.
 
@@ -884,6 +887,7 @@ Definition gate_obs (o : op) (ob : obs) : bool :=
 
 (** ** a pending logout: a service in status logouting stays so or becomes forbidden, unless the step (the block)
     holds a rejection or a withdrawal (its logout not approved: it returns to its last status) *)
+Definition is_rolevote (o : op) : bool := match o with ORoleVote _ _ _ => true | _ => false end.
 Definition is_reject (o : op) : bool := match o with OConclude _ false | OWithdraw _ => true | _ => false end.
 Definition logout_step (a b : obs) : bool :=
   forallb (fun e : N * svc =>
@@ -908,7 +912,7 @@ Definition hist_mask (bs : list (list op)) : list (op * bool * bool * bool) := f
 Definition flat_mask (h : list op) : list (op * bool * bool * bool) := map (fun o => (o, true, true, negb (is_reject o))) h.
 
 (** the property on a trace; returns 0 when it holds, else which*100000 + step (which: 1 gate 2 declared 3 forever 4 cascade
-    5 pending logout) *)
+    5 pending logout 6 ballot of an unavailable admin accepted) *)
 Fixpoint P_trace_from (h : list (op * bool * bool * bool)) (prev : obs) (tr : list obs) (i : N) : N :=
   match h, tr with
   | (o, chk, _, strict) :: h', ob :: tr' =>
@@ -917,6 +921,7 @@ Fixpoint P_trace_from (h : list (op * bool * bool * bool)) (prev : obs) (tr : li
       else if negb (forever_step prev ob) then 300000 + i
       else if negb (cascade_obs ob) then 400000 + i
       else if strict && negb (logout_step prev ob) then 500000 + i
+      else if is_rolevote o && ob_ok ob then 600000 + i
       else P_trace_from h' ob tr' (N.succ i)
   | _, _ => 0
   end%N.
